@@ -1228,6 +1228,13 @@ class TestRunRust(TestRun):
     def needs_parsing(self) -> bool:
         return True
 
+    def complete(self) -> None:
+        if self.returncode != 0 and not self.res.is_bad():
+            self.res = TestResult.ERROR
+            self.stde = self.stde or ''
+            self.stde += f'\n(test program exited with status code {self.returncode})'
+        super().complete()
+
     async def parse(self, harness: 'TestHarness', lines: T.AsyncIterator[str]) -> None:
         def parse_res(n: int, name: str, result: str) -> TAPParser.Test:
             if result == 'ok':
